@@ -129,6 +129,38 @@ theorem C17_app_sees_latest_init (quanta : List (List MEv)) (n : String) :
   rw [C17_app_sees_latest quanta {} rfl n]
   cases lastFor quanta.flatten n <;> simp
 
+/-- The pending set is empty at the start of every quantum of a history. -/
+theorem runQuanta_latest_nil (quanta : List (List MEv)) : ∀ (c : MC), c.latest = [] → (runQuanta c quanta).1.latest = [] := by
+  induction quanta with
+  | nil => intro c hc; simpa [runQuanta] using hc
+  | cons q qs ih =>
+    intro c _
+    simp only [runQuanta]
+    exact ih _ (C17_flush_resets c q)
+
+/-- **Closed form over the whole history** (no hypothesis on the coalescer: it starts fresh).
+After any earlier quanta `pre`, the latest event `e` of member `n` in the next quantum `q` is
+reported at its flush iff its kind differs from the kind of the member's latest event in all of
+`pre`, or it is an update.  Nothing else is ever reported for `n` at that flush
+(`C17_flush_latest`, `C17_flush_nodup`). -/
+theorem C17_history_report_iff (pre : List (List MEv)) (q : List MEv) (n : String) (e : MEv)
+    (he : lastFor q n = some e) :
+    e ∈ (runQuantum (runQuanta {} pre).1 q).2 ↔
+      ¬ ((lastFor pre.flatten n).map (·.kind) = some e.kind ∧ e.kind ≠ .update) := by
+  rw [C17_flush_iff _ q (runQuanta_latest_nil pre {} rfl) n e he, C17_app_sees_latest_init]
+
+/-- … and every flush of every history reports each member at most once, with the latest event of
+its quantum. -/
+theorem C17_history_flush_sound (pre : List (List MEv)) (q : List MEv) :
+    ((runQuantum (runQuanta {} pre).1 q).2.map (·.name)).Nodup ∧
+    ∀ o ∈ (runQuantum (runQuanta {} pre).1 q).2, lastFor q o.name = some o :=
+  ⟨C17_flush_nodup _ q (runQuanta_latest_nil pre {} rfl),
+   fun o ho => C17_flush_latest _ q (runQuanta_latest_nil pre {} rfl) o ho⟩
+
+-- C17_history_report_iff: a join after a join (in an earlier quantum) is not reported, an update is
+example : (runQuantum (runQuanta {} [[⟨.join, "a", 1⟩], []]).1 [⟨.failed, "a", 2⟩, ⟨.join, "a", 3⟩, ⟨.update, "b", 4⟩]).2
+    = [⟨.update, "b", 4⟩] := by decide
+
 /-! ### Ties to serf/coalesce_member.go (regenerated on every run: extract/coalescers.go) -/
 
 section SourceTies
